@@ -553,7 +553,10 @@ func run(c *core.Ctx) {
 		if c.Expired() {
 			return
 		}
-		caseNo, _ := c.Begin()
+		caseNo, run := c.Begin()
+		if c.Skip(caseNo, run, in) {
+			return
+		}
 		c.Exec()
 		c.Validate()
 		c.StateN(1)
